@@ -180,6 +180,21 @@ def check_population(k1: int, k2: int, k3: int, d1: int, d2: int, d3: int,
         score, ds = m.compute_sensitivities(theta, obs, reduce=True)
         ok = ok and ds.shape == (nb + nt,)
     ok = ok and _names_stable(m)
+    # renaming and resetting to the defaults (reconfiguration): the default
+    # names come back, in the order of the parameter vector
+    names0 = m.get_parameter_names()
+    bare0 = m.get_parameter_names(True)
+    custom = ['q%d' % i for i in range(m.n_parameters())]
+    m.set_parameter_names(custom)
+    ok = ok and m.get_parameter_names(True) == custom
+    ok = ok and len(m.get_parameter_names()) == m.n_parameters()
+    m.set_parameter_names(None)
+    ok = ok and m.get_parameter_names() == names0
+    ok = ok and m.get_parameter_names(True) == bare0
+    for sub in models:
+        sub.set_parameter_names(None)
+    ok = ok and m.get_parameter_names() == names0
+    ok = ok and len(set(names0)) == len(names0) == m.n_parameters()
     dn = ['d%d' % i for i in range(m.n_dim())]
     m.set_dim_names(dn)
     ok = ok and m.get_dim_names() == dn
